@@ -10,7 +10,18 @@ TRUST = ("rustc/std; console crate (width measurement, ANSI stripping); verif_si
          "validated by ./selftest.sh determinism + sensitivity runs); SimTerm's reading of xterm deferred-wrap "
          "semantics (cross-checked against the vt100 crate in a share of the runs); sampling: a clean batch is evidence, not proof")
 
+SEQ_TECH = "deterministic simulation: seeded operation histories on a simulated terminal (TermLike seam) under a virtual clock, run in lock-step with an abstract reference model; whole-transcript oracle after every call"
 CHECKS = {
+ "C01": dict(level="exploration", ref="DESIGN.md §5 C01, Appendix A", technique=SEQ_TECH,
+   text="Seeded search over single-bar histories (texts around multiples of the terminal width, empty/zero-width lines, templates, widths 1..200, clock gaps) against the real library on a simulated terminal with deferred-wrap semantics and scrollback; after every call the transcript must be exactly printed lines + current frame and the cursor must be parked for ordinary output. Sampling of histories; exact replay."),
+ "C02": dict(level="exploration", ref="DESIGN.md §5 C02, Appendix A", technique=SEQ_TECH + "; plus seeded thread schedules for the concurrent part",
+   text="Seeded search over MultiProgress histories (add/insert*/remove/updates/finish*/drop/println/clear/suspend/alignment) with a candidate-pattern transcript oracle (log lines, optional static finished bars in any order, members in logical order), and seeded interleavings of per-thread updates with a per-frame 'state the bar really had, never older than shown before' oracle. Sampling; exact replay."),
+ "C03": dict(level="exploration", ref="DESIGN.md §5 C03", technique=SEQ_TECH,
+   text="The same executor biased to println/suspend, finish/drop orders and exhausted rate limiters; reports only damage to printed lines (missing, duplicated, reordered, overwritten). Sampling; exact replay."),
+ "C04": dict(level="exploration", ref="DESIGN.md §5 C04", technique=SEQ_TECH,
+   text="Histories that exhaust both rate limiters right before every kind of finishing (explicit calls, with_finish+drop, finish_using_style, iterator exhaustion); the forced final frame must reach the terminal and show the final state; visibly finished dropped bars must stay until println/clear/suspend/remove. Sampling; exact replay."),
+ "C19": dict(level="exploration", ref="DESIGN.md §5 C19", technique=SEQ_TECH + " with terminal sizes swept from 1x1",
+   text="Small-terminal sweeps (W,H in 1..8 and a few larger) with histories that grow and shrink the set of bars past the terminal height; the scrollback-aware transcript must show the leading lines/bars that fit and nothing of an earlier frame. Sampling; exact replay."),
  "C07": dict(level="exploration", ref="DESIGN.md §5 C07",
    technique="deterministic simulation: seeded histories vs wrapping/saturating reference model; seeded thread schedules with atomics as scheduling points",
    text="Seeded search: boundary-valued operation histories against an executable reference model (sequential), and 2-8 simulated threads incrementing clones under a seeded scheduler that interleaves at every atomic operation (lost-update oracle). Sampling over histories and schedules; exact replay from a seed/schedule file."),
